@@ -253,7 +253,7 @@ def run_property(pid, cfg, tier='quick', seed=0, replayer=None):
                         'by_class': dict(collections.Counter(o['class'] for o in j['discharged'])),
                         'tolerated': ['%s: %s (%s)' % (o['name'], o['desc'], o['tolerated'][1]) for o in j['tolerated']],
                         'backend': ('vcgen (own WP generator over the clang AST) -> z3' if r.backend == 'vcgen' else 'cbmc %s' % ('+ goto-instrument --apply-loop-contracts' if r.info.get('has_loop_contracts') else '(loop-free: complete)')),
-                        'solver': r.solver, 'seconds': round(r.seconds, 1), 'ast_hash': r.info.get('ast_hash'),
+                        'solver': r.solver + ('; %d properties by z3 (cbmc --z3)' % sum(1 for o_ in r.obligations if o_.get('solver')) if any(o_.get('solver') for o_ in r.obligations) else ''), 'seconds': round(r.seconds, 1), 'ast_hash': r.info.get('ast_hash'),
                         'callees_by_contract': [cbmcdrv.short(c) for c in r.info.get('callees', [])], 'translation_rules_fired': sum(r.info.get('rules', {}).values())}
         if j['vacuous']:
             undecided.append('%s: vacuity marker not reachable: %s' % (r.key, ', '.join(o['desc'] for o in j['vacuous'])))
